@@ -1,3 +1,3 @@
-@nsmap.setter
-def nsmap(self, nsmap: dict):
-    self._nsmap = nsmap
+@property
+def nsmap(self):
+    return self._nsmap
